@@ -198,3 +198,10 @@ Definition call_read (c : call) (input : bytes) (cap : N) : res (call * N * byte
         do x <- reader_read r input cap (c_stop c);
         let '(r', i, o) := x in Ok (set_reader c (Some r'), i, o)
   end.
+
+(** The call after a [read] that returned an error: the body reader keeps the state it had reached. *)
+Definition call_read_after_err (c : call) (input : bytes) (cap : N) : call :=
+  match c_reader c with
+  | Some r => if reader_is_ended r then c else set_reader c (Some (reader_after_err r input cap (c_stop c)))
+  | None => c
+  end.
